@@ -135,3 +135,13 @@ Proof.
   - intros ->. discriminate.
   - apply negb_true_iff in H1. exact H1.
 Qed.
+
+(* every file held open at any snapshot lives under the configured directory *)
+Theorem tmp_open_ok_spec : forall cfg opens, tmp_open_ok cfg opens = true ->
+  forall l p, In l opens -> In p l -> exists rest, p = cfg ++ [47] ++ rest.
+Proof.
+  intros cfg opens H l p Hl Hp. unfold tmp_open_ok in H. rewrite forallb_forall in H. specialize (H l Hl).
+  rewrite forallb_forall in H. specialize (H p Hp). unfold under_cfg in H.
+  destruct (strip_prefix (cfg ++ [47]) p) as [rest|] eqn:E; [|discriminate].
+  exists rest. apply strip_prefix_app in E. rewrite E, <- app_assoc. reflexivity.
+Qed.
